@@ -17,6 +17,7 @@ import threading
 import time
 
 from ..runner import Acc
+from .. import logmode
 
 PROPERTY = "C20"
 LEVEL = "exploration"
@@ -157,7 +158,7 @@ def run_shard(desc) -> Acc:
 
     import bellows.thread as bt
 
-    logging.disable(logging.CRITICAL)
+    logmode.apply(desc)
     acc = Acc()
     sys.setswitchinterval(1e-5)
     inj = YieldInjector(desc["seed"], desc["p"])
